@@ -8,9 +8,9 @@ git diff -- reactivex > /tmp/cur_$ID.diff
 [ -s /tmp/cur_$ID.diff ] || { echo "$NAME: no change applied in worktree"; exit 2; }
 suite=$(timeout 900 /venv/bin/python -m pytest -q -x -p no:cacheprovider -n 6 2>&1 | tail -1)
 timeout 120 /venv/bin/python demo_$ID.py > /tmp/demo_with_$ID.log 2>&1; with=$?
-git stash -q -- reactivex
+git checkout -q -- reactivex   # (git stash is shared between the worktrees of one repository: not used)
 timeout 120 /venv/bin/python demo_$ID.py > /tmp/demo_without_$ID.log 2>&1; without=$?
-git stash pop -q
+git apply /tmp/cur_$ID.diff
 echo "$NAME: suite='$suite' demo_with_change_rc=$with demo_without_rc=$without"
 if ! echo "$suite" | grep -q "1529 passed" || [ $with -eq 0 ] || [ $without -ne 0 ]; then echo "$NAME: NOT CONFIRMED"; exit 1; fi
 mkdir -p /verif/seeded/$NAME
